@@ -2466,6 +2466,8 @@ class Sequence(Construct):
         fname = f"build_sequence_{code.allocateId()}"
         block = f"""
             def {fname}(obj, io, this):
+                if obj is None:
+                    obj = ListContainer([None for i in range({len(self.subcons)})])
                 this = Container(_ = this, _params = this['_params'], _root = None, _parsing = False, _building = True, _sizing = False, _subcons = None, _io = io, _index = this.get('_index', None))
                 this['_root'] = this['_'].get('_root', this)
                 try:
